@@ -46,6 +46,12 @@ def gen_params(ctx, double_only=False):
             p["fix"], p["fix_var"] = ("gamma", 1e-2)
         if k % 7 == 5:
             p["fix"], p["fix_var"] = ("alpha", 1e-7)
+        if k % 7 == 6:
+            p["fix"], p["fix_var"] = (("gamma+dalpha" if k % 2 else "alpha+gamma") if not double else "alpha+gamma", 1e-4)
+            if not double:
+                p["nmatch"] = 0
+        if force["nta"] == 2:
+            p["ta_reversed"] = bool(k % 2)
         out.append(p)
     return out
 
